@@ -481,8 +481,12 @@ structure PkgOut where
   deriving Repr
 
 /-- one package of an operation (every package is expanded even when another one fails: the errgroup has no
-cancellation) -/
-def runPkg (cfg : Cfg) (L : Lib) (kind : OpKind) (useCache : Bool) (s : State) (p : PkgReq) : PkgOut × State :=
+cancellation).  `prev`: the data sections already laid out by earlier packages of this build — when a handle is given
+the very same data section again (the same package under two handles: an edited lock file; F05c) its files and
+symlinks are found in place ("same checksum, that's fine") and nothing new is laid out, but a hard link entry collides
+with its first installation (`link`: the name exists).  Other overlaps between packages are C07's. -/
+def runPkg (cfg : Cfg) (L : Lib) (kind : OpKind) (useCache : Bool) (prev : List (List Entry)) (s : State) (p : PkgReq) :
+    PkgOut × State :=
   match expandVia cfg.verify cfg.checkMemo L useCache s p with
   | (.error _, s') => ({ ok := false }, s')
   | (.ok e, s') =>
@@ -491,14 +495,27 @@ def runPkg (cfg : Cfg) (L : Lib) (kind : OpKind) (useCache : Bool) (s : State) (
     | .build =>
       match installPkg cfg.rejectDup e.files with
       | none => ({ ok := false, exp := some e }, s')
-      | some ns => ({ ok := true, exp := some e, nodes := ns }, s')
+      | some ns =>
+        if prev.contains e.files then
+          ({ ok := !(installable e.files).any (fun x => x.kind = .hardlink), exp := some e }, s')
+        else ({ ok := true, exp := some e, nodes := ns }, s')
 
-def runPkgs (cfg : Cfg) (L : Lib) (kind : OpKind) (useCache : Bool) : State → List PkgReq → List PkgOut × State
-  | s, [] => ([], s)
-  | s, p :: ps =>
-    let (o, s') := runPkg cfg L kind useCache s p
-    let (os, s'') := runPkgs cfg L kind useCache s' ps
+/-- the data sections laid out so far -/
+def laidOut (prev : List (List Entry)) (o : PkgOut) : List (List Entry) :=
+  match o.exp with
+  | some e => e.files :: prev
+  | none => prev
+
+def runPkgsFrom (cfg : Cfg) (L : Lib) (kind : OpKind) (useCache : Bool) :
+    List (List Entry) → State → List PkgReq → List PkgOut × State
+  | _, s, [] => ([], s)
+  | prev, s, p :: ps =>
+    let (o, s') := runPkg cfg L kind useCache prev s p
+    let (os, s'') := runPkgsFrom cfg L kind useCache (laidOut prev o) s' ps
     (o :: os, s'')
+
+def runPkgs (cfg : Cfg) (L : Lib) (kind : OpKind) (useCache : Bool) (s : State) (ps : List PkgReq) : List PkgOut × State :=
+  runPkgsFrom cfg L kind useCache [] s ps
 
 /-- a new process starts with an empty memo -/
 def State.enter (s : State) (o : Op) : State := if o.fresh then { s with memo := [] } else s
